@@ -50,11 +50,24 @@ CORPUS = ['return 5 print 1', 'return', 'assign t -8:00', 'hue -8:00', 'assign t
           '[', ']', '{', '}', '(', ')', '"', '""', '# only a comment', '', ' ', '\n\n', 'print {1 +}', 'print {+ 1}', 'print {1 2}', 'print {()}', 'print {not}',
           'print {not 1}', 'print {1 and}', 'print {1 < 2 < 3}', 'print {"a" + "b"}', 'print {"a" == "a"}', 'assign s "a" print {s + 1}', 'print {2 ^ 0.5}', 'print {0 ^ -1}',
           'print {1 % 0}', 'print {10 ^ 400}', 'repeat 1000000000 begin end', 'define f begin [f] end', 'assign x 1 define f with x begin return x end print [f]',
+          'hue {{1 + 2} + 3} print hue', 'assign x {{4}} print x', 'print {3 * {1 + {2}}}', 'print {[round {1.5}] + {2}}', 'if {{1 < 2} and {2 < 3}} on all',
           'print [round]', 'print [round 1 2]', 'print [random 5 1]', 'print [cycle "a"]', 'hue [undefined_fn 1]']
 
 
 def soup(rng):
     return ' '.join(rng.choice(VOCAB) for _ in range(rng.randint(1, 30)))
+
+
+EXPR_VOCAB = ['1', '2', '0', '0.5', '7', 'x', 'x', 's', '(', ')', '{', '}', '[round', '[floor', '[f', ']', '+', '-', '*', '/', '%', '^', 'and', 'or', 'not',
+              '<', '<=', '==', '!=', '>', 'hue', 'brightness', '"a"', '-1', '8:00']
+EXPR_FRAMES = ['print {%s}', 'hue {%s}', 'assign y {%s} print y', 'if {%s} on all', 'repeat {%s} begin on all end', 'repeat while {%s} begin break end',
+               'print [f {%s}]', 'printf "{}" {%s}', 'set "Top" zone {%s}', 'repeat with i from {%s} to 3 begin end', 'print %s', 'assign y %s']
+
+
+def expr_soup(rng):
+    """Token soup where a value is expected: most texts are rejected, the accepted ones must run without a VM fault."""
+    body = ' '.join(rng.choice(EXPR_VOCAB) for _ in range(rng.randint(1, 9)))
+    return 'assign x 3 assign s "t" define f with a begin return a end\n' + rng.choice(EXPR_FRAMES) % body
 
 
 def mutate(text, rng):
@@ -83,12 +96,14 @@ def inject(rng):
     ctx_after = rng.choice(['', '\non all', '\nprint 1', '\nset "Top"'])
     rules = {
         'break-outside-loop': ['break', 'if {1 < 2} break', 'if {1 < 2} begin on all break end', 'define f begin break end f',
-                               'repeat 2 begin on all end break'],
+                               'repeat 2 begin on all end break', 'repeat 2 begin define g begin break end end g',
+                               'repeat all as z begin define g begin if {1 < 2} break on all end end'],
         'assign-to-macro': ['define K1 5 assign K1 6', 'define K2 "a" assign K2 "b"'],
         'redefine-macro': ['define K3 5 define K3 6', 'define K4 5 define K4 begin on all end'],
         'redefine-routine': ['define r1 on all define r1 off all', 'define r2 begin on all end define r2 5'],
         'undefined-name': ['hue zz', 'assign y zz', 'print zz', 'zz', 'zz 5', '[zz]', 'set zz', 'on group zz', 'print {1 + zz}', 'hue [zz 1]',
-                           'repeat zz begin on all end', 'if zz on all', 'set "Top" zone zz', 'define f with a begin print b_ end f 1'],
+                           'repeat zz begin on all end', 'if zz on all', 'assign zz {zz + 1}', 'assign zz zz', 'assign zz [round zz]',
+                           'define f with a begin assign acc_ {acc_ + a} end f 1', 'set "Top" zone zz', 'define f with a begin print b_ end f 1'],
         'nested-routine': ['define outer begin define inner on all end', 'define o2 with a begin define i2 with b begin print b end end'],
         'missing-end': ['repeat 2 begin on all', 'if {1 < 2} begin on all', 'define f begin on all', 'set "Top" begin stage row 1', 'repeat begin if 1 begin on all end'],
         'unbalanced': ['hue {1 + 2', 'hue {(1 + 2}', 'hue {1 + 2)}', 'print [round 1', 'hue {1 + 2}}', 'define f with a begin return {a end', 'print ]',
@@ -159,6 +174,8 @@ def run(report, replay=None):
     inputs = []
     for _ in range(1500 * scale):
         inputs.append(('soup', '', soup(rng)))
+    for _ in range(1500 * scale):
+        inputs.append(('soup', '', expr_soup(rng)))
     valid = [gen_lang.make_record(0, lang_props.hash_seed(report.seed, 'c06', i), rng.choice(['general', 'routines', 'loops', 'matrix', 'print']), 18)['text']
              for i in range(60 * scale)]
     for _ in range(1500 * scale):
